@@ -50,6 +50,11 @@ class Sym(str):
     """An opaque value; the text says where it came from (`operand(left)`), so data flow can be read off events."""
 
 
+class Str(str):
+    """A concrete string value (a string literal of the code, or a test vector handed in by a rule).  A handful of `str` / `Option`
+    methods whose meaning is fixed by the standard library are evaluated on such values (starts_with, strip_prefix, rsplit_once ..)."""
+
+
 def ctor(name, *args):
     return ("ctor", name) + tuple(args)
 
@@ -236,13 +241,87 @@ class Machine:
         return m(e)
 
     def ev_lit(self, e):
+        if e.get("lk") == "str" and isinstance(e.get("v"), str):
+            return Str(e["v"])
         return e.get("v")
+
+    def _str_method(self, m, recv, args):
+        """std `str` methods on concrete strings; returns (done, value)"""
+        a = [x for x in args]
+        if not all(isinstance(x, (Str, int)) or (isinstance(x, str) and len(x) == 1 and not isinstance(x, Sym)) for x in a):
+            return False, None
+        a0 = a[0] if a else None
+        if m in ("starts_with", "ends_with", "contains") and len(a) == 1:
+            return True, {"starts_with": recv.startswith(a0), "ends_with": recv.endswith(a0), "contains": a0 in recv}[m]
+        if m == "strip_prefix" and len(a) == 1:
+            return True, (ctor("Some", Str(recv[len(a0):])) if recv.startswith(a0) else "None")
+        if m == "strip_suffix" and len(a) == 1:
+            return True, (ctor("Some", Str(recv[:len(recv) - len(a0)])) if recv.endswith(a0) and a0 != "" else ("None" if a0 != "" else ctor("Some", recv)))
+        if m in ("rsplit_once", "split_once") and len(a) == 1:
+            i = recv.rfind(a0) if m == "rsplit_once" else recv.find(a0)
+            if i < 0:
+                return True, "None"
+            return True, ctor("Some", (Str(recv[:i]), Str(recv[i + len(a0):])))
+        if m in ("len",) and not a:
+            return True, len(recv.encode("utf-8"))
+        if m == "is_empty" and not a:
+            return True, recv == ""
+        if m in ("to_string", "to_owned", "as_str", "as_ref", "into", "clone", "borrow", "deref", "trim") and not a:
+            return True, (Str(recv.strip()) if m == "trim" else recv)
+        if m == "replace" and len(a) == 2:
+            return True, Str(recv.replace(a[0], a[1]))
+        return False, None
+
+    def _option_method(self, m, recv, args):
+        """Option combinators on values whose variant is known; returns (done, value)"""
+        some = is_ctor(recv) and recv[1] == "Some" and len(recv) == 3
+        none = recv == "None" and not isinstance(recv, (Sym, Str))
+        if not (some or none):
+            return False, None
+        clos = [x for x in args if isinstance(x, tuple) and x and x[0] == "closure"]
+        if m == "is_some" and not args:
+            return True, some
+        if m == "is_none" and not args:
+            return True, none
+        if m in ("unwrap_or", "unwrap_or_default") :
+            return True, (recv[2] if some else (args[0] if args else Sym("?default")))
+        if m == "map_or" and len(args) == 2 and len(clos) == 1:
+            return True, (self._call_closure(clos[0], [recv[2]]) if some else args[0])
+        if m in ("map", "and_then", "filter", "is_some_and") and len(args) == 1:
+            if none:
+                return True, (False if m == "is_some_and" else "None")
+            if len(clos) == 1:
+                v = self._call_closure(clos[0], [recv[2]])
+            elif isinstance(args[0], tuple) and args[0] and args[0][0] == "fnitem":
+                done, v = self._inline(args[0][1], [recv[2]], "fn")
+                if not done:
+                    return False, None
+            else:
+                return False, None
+            if m == "map":
+                return True, ctor("Some", v)
+            if m == "and_then":
+                return True, v
+            if m == "is_some_and":
+                return True, v
+            if m == "filter":
+                return True, (recv if v is True else "None" if v is False else Sym("?filter"))
+        if m in ("cloned", "copied", "as_ref", "as_deref", "as_mut") and not args:
+            return True, recv
+        return False, None
 
     def ev_path(self, e):
         l = hir.res_local(e)
         if l is not None:
             return self.env.get(l, Sym(e["res"].get("name") or "local"))
         d = hir.res_def(e) or ""
+        dk = ((e.get("res") or {}).get("dk") or "")
+        if d and (dk.startswith("Const") or dk.startswith("AssocConst")) and "Ctor" not in dk and self.ex.F.has(d):
+            cb = self.ex.F.body(d)
+            if cb is not None and cb.hir and self.depth < self.ex.max_depth:
+                return Machine(self.ex, cb.hir, self.depth + 1).ev(cb.hir["value"])     # the value of a constant item
+        if d and (dk.startswith("Fn") or dk.startswith("AssocFn")) and self.ex.F.has(d):
+            return ("fnitem", d)
         return hir.last(d) if d else Sym((e.get("res") or {}).get("text") or "?path")
 
     def ev_addr(self, e):
@@ -412,6 +491,13 @@ class Machine:
         recv = self.ev(e["recv"])
         args = [self.ev(a) for a in e["args"]]
         m = e["m"]
+        if isinstance(recv, Str):
+            done, val = self._str_method(m, recv, args)
+            if done:
+                return val
+        done, val = self._option_method(m, recv, args)
+        if done:
+            return val
         if m in TRANSPARENT and not args:
             return recv
         d = e.get("def") or ""
